@@ -265,6 +265,22 @@ def _iterpath_list(values, path):
         path.pop()
 
 
+def check_not_marked_with_itself(marking_obj):
+    """A marking definition may be marked, but not with itself: its marking
+    references must not contain its own id (no circular references)."""
+    own_id = marking_obj.get("id")
+    refs = list(marking_obj.get("object_marking_refs", []))
+    for granular_marking in marking_obj.get("granular_markings", []):
+        refs.append(granular_marking.get("marking_ref"))
+
+    if own_id is not None and own_id in refs:
+        raise exceptions.InvalidValueError(
+            marking_obj.__class__,
+            "object_marking_refs" if own_id in marking_obj.get("object_marking_refs", []) else "granular_markings",
+            "a marking definition must not reference itself",
+        )
+
+
 def check_tlp_marking(marking_obj, spec_version):
     # Specific TLP Marking validation case.
 
